@@ -34,6 +34,11 @@ impl Concretiser {
 
     fn key_bytes(&self, k: &Value) -> (i32, Vec<u8>) {
         let alg = k["alg"].as_str().unwrap();
+        if let Some(code) = alg.strip_prefix("raw:") {
+            // an undeclared key projected from the wire: its own algorithm tag and bytes
+            let bytes = hex::decode(k["id"].as_str().unwrap().trim_start_matches("unknown:")).unwrap_or_default();
+            return (code.parse().unwrap_or(-1), bytes);
+        }
         (keys::alg_code(alg), keys::public_of(k).to_bytes())
     }
 
